@@ -194,11 +194,15 @@ func cmdWorker(args []string) int {
 	deadline := fs.Int64("deadline", 0, "unix ms")
 	maxRuns := fs.Int("max", 0, "")
 	verify := fs.Bool("verify-replay", false, "replay every generated plan after a JSON round trip and compare event hashes")
+	engName := fs.String("engine", "", "engine to use instead of the property's own")
 	_ = fs.Parse(args)
 	out := bufio.NewWriterSize(os.Stdout, 1<<20)
 	defer out.Flush()
 	enc := json.NewEncoder(out)
 	eng := k.EngineFor(*prop)
+	if *engName != "" {
+		eng = k.EngineByName(*engName)
+	}
 	n := 0
 	if pf := os.Getenv("VERIF_PROF"); pf != "" {
 		f, _ := os.Create(pf)
@@ -535,6 +539,12 @@ func cmdCheck(args []string) int {
 		phases = []k.Engine{eng, k.EngineByName("L")}
 		shares = []float64{0.6, 0.4}
 	}
+	if *prop == "C16" {
+		// the store engine decides the command contract; the kernel engine adds the batches the
+		// production coroutines really submit (rule M1: every batch refines the reference store)
+		phases = []k.Engine{eng, k.EngineByName("K")}
+		shares = []float64{0.7, 0.3}
+	}
 	infra := false
 	type death struct {
 		run    int
@@ -554,7 +564,7 @@ func cmdCheck(args []string) int {
 				if time.Now().UnixMilli() >= deadline {
 					return
 				}
-				cmd := exec.Command(self, "worker", "-property", *prop, "-seed", fmt.Sprint(*seed), "-from", fmt.Sprint(from), "-stride", fmt.Sprint(*workers), "-deadline", fmt.Sprint(deadline), "-max", fmt.Sprint(*maxRuns))
+				cmd := exec.Command(self, "worker", "-engine", eng.Name(), "-property", *prop, "-seed", fmt.Sprint(*seed), "-from", fmt.Sprint(from), "-stride", fmt.Sprint(*workers), "-deadline", fmt.Sprint(deadline), "-max", fmt.Sprint(*maxRuns))
 				cmd.Env = append(os.Environ(), "TZ=UTC", "GOMAXPROCS=2")
 				if ext, ok := eng.(*extEngine); ok {
 					cmd = exec.Command(ext.path(), "-test.run", "^TestWorker$", "-test.timeout", "6h")
